@@ -528,6 +528,25 @@ func checkC07(c *Ctx, r *Report) {
 							}
 						}
 					}
+					// … and the all-ones value must survive to the width of the result: a negation done on
+					// a narrower unsigned type and then widened is zero-extended (‑(b&1) on a byte is 255,
+					// int64(255) is not ‑1)
+					if okMask {
+						for w := mask; ; {
+							cv, isC := w.(*ssa.Convert)
+							if !isC {
+								break
+							}
+							from, okf := cv.X.Type().Underlying().(*types.Basic)
+							to, okt := cv.Type().Underlying().(*types.Basic)
+							if okf && okt && from.Info()&types.IsUnsigned != 0 && basicWidth(from) < basicWidth(to) {
+								okMask = false
+								why = fmt.Sprintf("the sign mask is computed as %s and then widened to %s: zero extension leaves %d low one-bits, not all ones, so negative values decode as positive", from.Name(), to.Name(), 8*basicWidth(from))
+								break
+							}
+							w = cv.X
+						}
+					}
 					if okMask {
 						r.ok("C07.T7", key, m.Pos(x.Pos()), "")
 					} else {
@@ -697,4 +716,17 @@ func instrDominates(a, b ssa.Instruction) bool {
 		}
 	}
 	return a.Block().Dominates(b.Block())
+}
+
+
+func basicWidth(b *types.Basic) int {
+	switch b.Kind() {
+	case types.Int8, types.Uint8:
+		return 1
+	case types.Int16, types.Uint16:
+		return 2
+	case types.Int32, types.Uint32:
+		return 4
+	}
+	return 8
 }
